@@ -9,6 +9,8 @@ import (
 	sdk "github.com/cosmos/cosmos-sdk/types"
 	authtypes "github.com/cosmos/cosmos-sdk/x/auth/types"
 	banktypes "github.com/cosmos/cosmos-sdk/x/bank/types"
+
+	ophosttypes "github.com/initia-labs/OPinit/x/ophost/types"
 )
 
 // C07: a deposit can neither be lost nor block the bridge; hooks are contained.
@@ -74,6 +76,10 @@ type c07Run struct {
 	HookGas     uint64
 	ZeroGas     bool     // hook_max_gas = 0
 	Execs       []string // executor list to install on the branch (nil = the scenario's)
+	Track       *L2Track // observed accounts / denoms (nil = the scenario's)
+	PreOp       *L2Op    // executed on the branch before the judged message (e.g. the first deposit of the denom)
+	PreObs      Ov
+	PreFailed   bool
 	Gas         uint64
 	HookCharges []uint64
 	Signer      uint64 // hook signer (0 = none)
@@ -113,6 +119,13 @@ func (m *recMeter) ConsumeGas(amount storetypes.Gas, descriptor string) {
 	m.GasMeter.ConsumeGas(amount, descriptor)
 }
 
+func (fx *c07Fx) track(run *c07Run) L2Track {
+	if run.Track != nil {
+		return *run.Track
+	}
+	return fx.sc.Case.Track
+}
+
 func (fx *c07Fx) exec(run *c07Run) {
 	e := fx.sc.Env
 	branch, _ := fx.base.CacheContext()
@@ -132,7 +145,12 @@ func (fx *c07Fx) exec(run *c07Run) {
 			panic(err)
 		}
 	}
-	tr := fx.sc.Case.Track
+	tr := fx.track(run)
+	if run.PreOp != nil {
+		r := e.L2Exec(*run.PreOp)
+		run.PreObs = e.L2Obs(tr, r)
+		run.PreFailed = !r.OK
+	}
 	run.Pre = l2ViewOf(tr, e.L2Obs(tr, ExecResult{OK: true}))
 	g0 := meter.GasConsumed()
 	*e.Fault = FaultPlan{FailAt: run.FailAt, Panic: run.Panic}
@@ -168,7 +186,7 @@ func (fx *c07Fx) viol(run *c07Run, sig, what string) {
 
 // the two-outcome rule, stated over the implementation's own observables
 func (fx *c07Fx) judge(run *c07Run) {
-	tr := fx.sc.Case.Track
+	tr := fx.track(run)
 	pre, post := run.Pre, run.Post
 	faultName := ""
 	if run.FailAt > 0 && run.FailAt <= len(run.Calls) {
@@ -342,6 +360,28 @@ func (fx *c07Fx) judge(run *c07Run) {
 	if w.Seq != pre.N2 || w.From != o.To || w.To != o.From || w.Denom != o.Denom || w.Base != base || w.Amt.Cmp(o.Amt) != 0 {
 		fx.viol(run, "C07:refund-record", fmt.Sprintf("refund record (%d,%s,%s,%s,%s,%s) differs from the deposit", w.Seq, w.From, w.To, w.Denom, w.Base, w.Amt))
 	}
+}
+
+// c07BoundaryDenoms: L1 base denoms at the length boundaries (sdk.ValidateDenom accepts 3..128
+// characters, [a-zA-Z][a-zA-Z0-9/:._-]*), drawn from the whole allowed alphabet, plus ibc/- and
+// l2/-shaped ones and three strings L1 cannot emit (1, 2 and 129 characters).
+func c07BoundaryDenoms(variant int) []string {
+	alphabet := "aZ09/:._-bY18xQ"
+	mk := func(prefix string, n int) string {
+		bs := []byte(prefix)
+		for i := len(bs); i < n; i++ {
+			bs = append(bs, alphabet[(i+variant)%len(alphabet)])
+		}
+		return string(bs[:n])
+	}
+	var out []string
+	for _, n := range []int{3, 4, 64, 115, 116, 117, 127, 128} {
+		out = append(out, mk("u", n))
+	}
+	out = append(out,
+		mk("ibc/", 68), mk("ibc/", 116), mk("ibc/", 128), mk("l2/", 67), mk("l2/", 128), mk("factory/", 120),
+		"u", "ub", mk("u", 129))
+	return out
 }
 
 func genC07(seed uint64, tier string, outdir string) *Report {
@@ -572,6 +612,65 @@ func genC07(seed uint64, tier string, outdir string) *Report {
 			c := &L2Case{ID: caseID, Env: e, Track: sc.Case.Track, Params: sc.Case.Params, NextL1: sc.Case.NextL1, NextL2: sc.Case.NextL2,
 				Bals: sc.Case.Bals, Sups: sc.Case.Sups, Pairs: sc.Case.Pairs, Ops: []L2Op{op1, op2}, Obs: []Ov{o1, o2}}
 			texts = append(texts, c.Coq())
+		}
+		// the DENOM axis: base denoms at the length boundaries L1 accepts (3..128 characters; 1, 2 and
+		// 129 are not valid denoms and must be rejected), over the whole allowed alphabet, ibc/- and
+		// l2/-shaped; each as the FIRST deposit of its L2 denom (no bank metadata, no pair yet) and as a
+		// later one, crossed with recipient and hook shapes.  No-fault runs, model-compared.
+		for li, base := range c07BoundaryDenoms(b) {
+			l2d := ophosttypes.L2Denom(sc.BridgeID, base)
+			trk := L2Track{Accts: sc.Case.Track.Accts, Denoms: append(append([]string{}, sc.Case.Track.Denoms...), l2d)}
+			emittable := sdk.ValidateDenom(base) == nil
+			for _, later := range []bool{false, true} {
+				for si, shp := range []c07Shape{{"valid", "1", "none"}, {"valid", "large", "fail1"}, {"malformed", "1", "none"}, {"valid", "0", "ok"}} {
+					if (li+si)%2 == 1 && !later && emittable && len(base) < 100 {
+						continue // thin out the short denoms; the long ones get every shape
+					}
+					to := e.User(signer).Str
+					if shp.Rcp == "malformed" {
+						to = "notanaddress"
+					}
+					amt := map[string]*big.Int{"0": big.NewInt(0), "1": big.NewInt(1), "large": large}[shp.AmtName]
+					seq := n1
+					run := &c07Run{Shape: c07Shape{shp.Rcp, shp.AmtName, shp.Hook}, Base: b, Track: &trk,
+						Signer: signer, Target: target, HookAmt: 5, HookWd: 3, HookDen: hookDen}
+					var ops []L2Op
+					if later {
+						first := sc.Deposit(e.User(1).Str, n1, e.User(6).Str, 0, big.NewInt(9), Hook{Kind: "none"})
+						first.Denom, first.Base = l2d, base
+						run.PreOp = &first
+						ops = append(ops, first)
+						seq = n1 + 1
+					}
+					op := sc.Deposit(e.User(uint64(1+(li+si)%2)).Str, seq, to, 0, amt, mkHook(shp.Hook))
+					op.Denom, op.Base = l2d, base
+					run.Op = op
+					ops = append(ops, op)
+					fx.exec(run)
+					caseID++
+					rep.Ops += len(ops)
+					rep.CountCase(fmt.Sprintf("%d/denom%d/%v/%v", b, li, later, shp), true)
+					rep.Hist(fmt.Sprintf("base-denom-length:%d", len(base)))
+					switch {
+					case !emittable:
+						if run.Res.OK {
+							fx.viol(run, "C07:malformed-accepted", fmt.Sprintf("a deposit naming the invalid base denom %q was accepted", base))
+						}
+					case run.PreFailed:
+						// the first deposit of the denom was refused: reported by the run that judges it
+					default:
+						fx.judge(run)
+					}
+					var obs []Ov
+					if later {
+						obs = append(obs, run.PreObs)
+					}
+					obs = append(obs, run.PostObs)
+					c := &L2Case{ID: caseID, Env: e, Track: trk, Params: sc.Case.Params, NextL1: sc.Case.NextL1, NextL2: sc.Case.NextL2,
+						Bals: sc.Case.Bals, Sups: sc.Case.Sups, Pairs: sc.Case.Pairs, Ops: ops, Obs: obs}
+					texts = append(texts, c.Coq())
+				}
+			}
 		}
 		// every listed executor may finalize: executor lists of 1..3 entries, sender = each position
 		// (first, middle, last), credited / refunded / hook-carrying deposits (no-fault runs; model-compared)
